@@ -285,7 +285,7 @@ def values_for(a, tier, text):
 
 
 def shards(tier, seed):
-    return [("addr", part, image) for part in range(12) for image in (0, 1)] + [("invalid",), ("count-max",), ("refused",)] + [("addr", 0, 0, "debuglog"), ("addr", 7, 1, "debuglog"), ("refused", "debuglog")] \
+    return [("addr", part, image) for part in range(12) for image in (0, 1)] + [("invalid",), ("count-max",), ("refused",), ("longrun",)] + [("addr", 0, 0, "debuglog"), ("addr", 7, 1, "debuglog"), ("refused", "debuglog")] \
         + [("invalid", "python-O"), ("count-max", "python-O"), ("addr", 3, 0, "python-O"), ("refused", "python-O")]
 
 
@@ -426,6 +426,22 @@ def run_shard(shard, tier, seed):
                 dev.restore(pre)
         rep.sample({"invalid_addresses": INVALID[:6]})
         w.__exit__()
+    elif kind == "longrun":
+        # a long-lived driver: 34 000 write / read-back rounds on one connection (transaction ids and sequence counts come round)
+        dev, t, w, d, r = open_slc(0)
+        bad = None
+        for i in range(34000):
+            v = (i * 7) % 30000 - 15000
+            wr = call(d.write, ("N7:3", v))
+            rd = call(d.read, "N7:3")
+            if not (wr[0] == "ok" and bool(wr[1]) and rd[0] == "ok" and bool(rd[1]) and rd[1].value == v):
+                bad = (i, wr, rd)
+                break
+        rep.case(("longrun", "N7:3"), outcome="ok" if bad is None else "bad", calls=68000)
+        if bad:
+            rep.violation("N/long-run/write-read", f"round #{bad[0] + 1} of writing and reading back N7:3 on one driver: write -> {bad[1]!r:.100}, read -> {bad[2]!r:.100}", {"kind": "longrun"})
+        rep.sample({"long_run_rounds": 34000})
+        w.__exit__()
     else:
         # {count} up to what one packet holds
         dev, t, w, d, r = open_slc(0)
@@ -446,8 +462,8 @@ def run_shard(shard, tier, seed):
 
 
 def replay(r):
-    if r.get("kind") == "refused":
-        rep = run_shard(("refused",), "quick", 0)
+    if r.get("kind") in ("refused", "longrun"):
+        rep = run_shard((r["kind"],), "quick", 0)
         for s_, vs in rep.violations.items():
             print("  violates:", s_, "::", vs[0].msg[:300])
         return not rep.violations
